@@ -588,7 +588,7 @@ MID = (0, 1, JUMP)
 # (calls per thread, reading alphabet, number of leading readings fixed per chunk)
 _COMMON = [([1], ALPHABET, 0), ([2], ALPHABET, 0), ([1, 1], ALPHABET, 0), ([2, 1], ALPHABET, 1)]
 _QUICK_CONFIGS = _COMMON + [([1, 1, 1], MID, 1), ([2, 2], MID, 1)]
-_THOROUGH_CONFIGS = _COMMON + [([1, 1, 1], ALPHABET, 1), ([2, 2], ALPHABET, 1), ([2, 1, 1], ALPHABET, 2), ([1, 1, 1, 1], MID, 2), ([2, 2, 1], SMALL, 3)]
+_THOROUGH_CONFIGS = _COMMON + [([1, 1, 1], ALPHABET, 1), ([2, 2], ALPHABET, 1), ([2, 1, 1], ALPHABET, 2), ([1, 1, 1, 1], SMALL, 2), ([2, 2, 1], SMALL, 3)]
 # executions (complete + sleep-set-blocked) the exploration needs per reading sequence on a tree whose
 # lock works, measured; the budget per sequence is 4x that, so that a tree with a broken lock (whose
 # choice tree is astronomically larger) still terminates.  Reaching the budget is labelled "cap-hit".
